@@ -1,4 +1,5 @@
 """C16 driver: solve_knapsack / solve_bin_pack on integer or decimal data (scaled integers in the trace)."""
+from drivers.labels import cont_mode, seq1, seq2
 import random
 from decimal import Decimal
 
@@ -20,7 +21,8 @@ def run_knap(case):
     events = []
     for minimize in (False, True):
         try:
-            r = solve_knapsack(vals, wts, cap, minimize=minimize)
+            cm = cont_mode(case)
+            r = solve_knapsack(seq1(vals, cm), seq1(wts, cm), cap, minimize=minimize)
             items = list(r.solution)
             if not all(type(i) is int for i in items):
                 events.append({"e": "raise", "what": "non_int_index"})
@@ -54,7 +56,7 @@ def run_bins(case):
     events = []
     for alg in ("first-fit", "best-fit", "first-fit-decreasing", "best-fit-decreasing"):
         try:
-            r = solve_bin_pack(sizes, cap, algorithm=alg)
+            r = solve_bin_pack(seq1(sizes, cont_mode(case)), cap, algorithm=alg)
             a = list(r.solution)
             k = float(r.objective)
             events.append({"e": "ret", "status": r.status.name, "alg": alg, "decreasing": alg.endswith("decreasing"), "assignment": [int(x) for x in a],
